@@ -184,6 +184,10 @@ class CircuitProgram:
         elif m == "mctrl" and len(c.args) >= 3:
             gate = (dotted(c.args[0].func) if isinstance(c.args[0], ast.Call) else dotted(c.args[0])) or "?"
             ctrl = c.args[1]
+            if isinstance(ctrl, ast.Name):
+                b = [n.value for n in ast.walk(self.fi.node) if isinstance(n, ast.Assign) and len(n.targets) == 1 and isinstance(n.targets[0], ast.Name) and n.targets[0].id == ctrl.id]
+                if len(b) == 1:
+                    ctrl = b[0]
             ctrl_reg = "?"
             t = norm(ctrl).replace(" ", "")
             if any(t == f"list(range({s}))" or t == f"range({s})" for s in self.size_names):
